@@ -178,6 +178,21 @@ def compile_same_object(n, m, version):
         return ("err", type(e).__name__, str(e).splitlines()[0][:200] if str(e) else "")
 
 
+def compile_shared_factor(n, m, version, where):
+    """the SAME expression object at two adjacent positions of a factor list (`a * x * x`): where = ('n'|'d', i) makes
+    position i+1 of that list the object of position i"""
+    pt = _pt()
+    try:
+        leaves = [pt.Btoi(pt.Txn.application_args[i]) for i in range(n + m)]
+        lst, i = where
+        base = 0 if lst == "n" else n
+        leaves[base + i + 1] = leaves[base + i]
+        wr = pt.WideRatio(leaves[:n], leaves[n:])
+        return ("ok", pt.compileTeal(pt.Return(wr), pt.Mode.Application, version=version, assembleConstants=False))
+    except Exception as e:  # noqa: BLE001
+        return ("err", type(e).__name__, str(e).splitlines()[0][:200] if str(e) else "")
+
+
 def compile_real(n, m, version, leaf):
     """('ok', teal) | ('err', ExceptionClassName, message)"""
     pt = _pt()
@@ -545,6 +560,20 @@ def run(tier: str) -> int:
                             bad_shapes.add((n, m))
                         continue
                     run_cases(drv, n, m, v, real[1], cases, stats, mismatches, cross)
+                    for where in [("n", i) for i in range(n - 1)] + [("d", i) for i in range(m - 1)]:
+                        sh = compile_shared_factor(n, m, v, where)
+                        stats["shared_factor_programs"] += 1
+                        if sh[0] != "ok":
+                            mismatches.append({"kind": "shared-factor", "n": n, "m": m, "version": v, "ns": [], "ds": [], "no_input": True,
+                                               "what": f"WideRatio with one object at two adjacent positions {where} refused: {sh[1:]}"})
+                            continue
+                        base = 0 if where[0] == "n" else n
+                        twin = []
+                        for ns_, ds_ in cases[:10]:
+                            vals = list(ns_) + list(ds_)
+                            vals[base + where[1] + 1] = vals[base + where[1]]
+                            twin.append((vals[:n], vals[n:]))
+                        run_cases(drv, n, m, v, sh[1], twin, stats, mismatches, cross)
                     same = compile_same_object(n, m, v)
                     stats["same_object_programs"] += 1
                     if same[0] != "ok" or same[1] != real[1] or same[2] != real[1]:
